@@ -5,7 +5,8 @@
   Structure: (A) the stable sort; (B) the choice "sorted by number of init fields, first superset" for an arbitrary
   candidate list — the unbounded quantifiers (any hierarchy, any iteration order π of the subclass set, hence any
   definition order) are closed here by a cardinality argument; (C) the same statements for `fromDict` on instances;
-  (D) `save_dc_types`; (E) the two open findings: full statements, witnesses, named exclusions.
+  (D) `save_dc_types`; (E) regression examples of the repaired finding, and the open finding D16: full statement,
+  witness, named exclusion.
 -/
 import Batteries.Data.List.Perm
 import SpVerif.Model.Subclass
@@ -79,12 +80,13 @@ theorem find_first_le (key : α → Nat) (p : α → Bool) (l : List α)
 
 /-! ### (B) the choice, for any candidate list -/
 
-/-- serializable.py:880-891 over an abstract "init-field names of a class" function -/
+/-- serializable.py:880-893 over an abstract "field names of a class" function (all fields, `init=False` included;
+    the sort key is the number of fields) -/
 def pick (flds : α → List Str) (cands : List α) (req : List Str) : Option α :=
   (sortByKey (fun c => (flds c).length) cands).find? (fun c => req.all (fun k => (flds c).contains k))
 
 theorem pickSubclass_eq (R : List RCls) (cands : List Nat) (req : List Str) :
-    pickSubclass R cands req = pick (initNames R) cands req := rfl
+    pickSubclass R cands req = pick (fieldNames R) cands req := rfl
 
 /-- a candidate "has every required key" -/
 def Covers (flds : α → List Str) (c : α) (req : List Str) : Prop := ∀ k ∈ req, k ∈ flds c
@@ -128,12 +130,13 @@ def Identifies (flds : α → List Str) (cands : List α) (d : α) : Prop :=
 theorem subset_of_card_le (a b : List Str) (hn : a.Nodup) (hab : a ⊆ b) (hl : b.length ≤ a.length) : b ⊆ a :=
   ((subperm_of_subset hn hab).perm_of_length_le hl).symm.subset
 
-/-- **Central theorem (identified clause).**  If the required keys are exactly the init fields of `d` and no other
-    candidate has the same field set, the choice is `d` — for EVERY order `cands` of the candidate set (the iteration
+/-- **Central theorem (identified clause).**  If `d` has every required key, every candidate having the required keys
+    has all of `d`'s fields (the required keys are `d`'s serialized keys minus fields every candidate inherits), and no
+    other candidate has the same field set, the choice is `d` — for EVERY order `cands` of the candidate set (the iteration
     order of `all_subclasses`, i.e. every definition order / process history) and any number of classes. -/
 theorem c14_identified_pick (flds : α → List Str) (cands : List α) (req : List Str) (d : α)
     (hd : d ∈ cands) (hnd : (flds d).Nodup)
-    (hsub : Covers flds d req) (hsup : ∀ k ∈ flds d, k ∈ req)
+    (hsub : Covers flds d req) (hfull : ∀ c ∈ cands, Covers flds c req → flds d ⊆ flds c)
     (huniq : Identifies flds cands d) : pick flds cands req = some d := by
   obtain ⟨c, hc⟩ := c14_superset_exists flds cands req d hd hsub
   have ⟨hcm, hcc⟩ := c14_superset flds cands req c hc
@@ -141,7 +144,7 @@ theorem c14_identified_pick (flds : α → List Str) (cands : List α) (req : Li
     unfold pick at hc
     exact find_first_le (fun c => (flds c).length) _ _ (sortByKey_sorted _ cands) c d hc
       ((sortByKey_perm _ cands).symm.subset hd) ((covers_iff flds d req).mpr hsub)
-  have hdc : flds d ⊆ flds c := fun k hk => hcc k (hsup k hk)
+  have hdc : flds d ⊆ flds c := hfull c hcm hcc
   have hcd : flds c ⊆ flds d := subset_of_card_le _ _ hnd hdc hle
   have : c = d := huniq c hcm (fun k => ⟨fun h => hcd h, fun h => hdc h⟩)
   rw [hc, this]
@@ -150,11 +153,13 @@ theorem c14_identified_pick (flds : α → List Str) (cands : List α) (req : Li
     subclass set (nor, therefore, on the order in which the classes were defined). -/
 theorem c14_order_free (flds : α → List Str) (cands₁ cands₂ : List α) (req : List Str) (d : α)
     (hperm : cands₁.Perm cands₂) (hd : d ∈ cands₁) (hnd : (flds d).Nodup)
-    (hsub : Covers flds d req) (hsup : ∀ k ∈ flds d, k ∈ req) (huniq : Identifies flds cands₁ d) :
+    (hsub : Covers flds d req) (hfull : ∀ c ∈ cands₁, Covers flds c req → flds d ⊆ flds c)
+    (huniq : Identifies flds cands₁ d) :
     pick flds cands₁ req = pick flds cands₂ req := by
-  rw [c14_identified_pick flds cands₁ req d hd hnd hsub hsup huniq]
+  rw [c14_identified_pick flds cands₁ req d hd hnd hsub hfull huniq]
   have huniq₂ : Identifies flds cands₂ d := fun c hc => huniq c (hperm.symm.subset hc)
-  rw [c14_identified_pick flds cands₂ req d (hperm.subset hd) hnd hsub hsup huniq₂]
+  have hfull₂ : ∀ c ∈ cands₂, Covers flds c req → flds d ⊆ flds c := fun c hc => hfull c (hperm.symm.subset hc)
+  rw [c14_identified_pick flds cands₂ req d (hperm.subset hd) hnd hsub hfull₂ huniq₂]
 
 /-- the full statement "the choice never depends on the iteration order" is FALSE without identification:
     two siblings with the same field set are told apart only by the set order -/
@@ -295,44 +300,42 @@ theorem mem_filter_names (F : List Field) (k : Str) (p : Str → Bool) :
   · rintro ⟨⟨f, hf, rfl⟩, hp⟩; exact ⟨f, hf, rfl, hp⟩
   · rintro ⟨f, hf, rfl, hp⟩; exact ⟨⟨f, hf, rfl⟩, hp⟩
 
-/-- the keys the candidate must have (serializable.py:880) when a `D` instance is loaded through `b` -/
+/-- the keys the candidate must have (serializable.py:880) when a `D` instance is loaded through `b`: the keys that are
+    not fields of `b`, and those of `b`'s INIT fields (the `init=False` fields of `b` are consumed and not required) -/
 def reqOf (R : List RCls) (b : Nat) (rb : RCls) (ext : List Field) (x : Str → Int) : List Str :=
   ext.map (·.name) ++ ((valOf x rb.fields).map (·.1)).filter (fun k => (initNames R b).contains k)
 
-/-- every extra field of the derived class is an init field (named, decidable exclusion: the open finding
-    `C14-noninit-field-blocks-recovery`) -/
-def AllInit (ext : List Field) : Prop := ∀ f ∈ ext, f.init = true
+theorem fieldNames_eq (R : List RCls) (c : Nat) (rc : RCls) (h : R[c]? = some rc) :
+    fieldNames R c = rc.fields.map (·.name) := by
+  simp [fieldNames, h]
 
-instance (ext : List Field) : Decidable (AllInit ext) := by unfold AllInit; infer_instance
+/-- every candidate has the fields of the class it derives from (children extend parents) -/
+def ExtendBase (R : List RCls) (cands : List Nat) (b : Nat) : Prop :=
+  ∀ c ∈ cands, ∀ k ∈ fieldNames R b, k ∈ fieldNames R c
 
+/-- `D` itself has every required key — whether its extra fields are init fields or not -/
 theorem req_covered (R : List RCls) (b D : Nat) (rb rD : RCls) (ext : List Field) (x : Str → Int)
-    (h : Derived R b D rb rD ext) (hinit : AllInit ext) : Covers (initNames R) D (reqOf R b rb ext x) := by
-  obtain ⟨hb, hD, hex, _, _, _⟩ := h
+    (h : Derived R b D rb rD ext) : Covers (fieldNames R) D (reqOf R b rb ext x) := by
+  obtain ⟨_, hD, hex, _, _, _⟩ := h
   intro k hk
-  rw [initNames_eq R D rD hD, hex]
+  rw [fieldNames_eq R D rD hD, hex, map_append]
   rcases mem_append.mp hk with hk | hk
-  · obtain ⟨f, hf, rfl⟩ := mem_map.mp hk
-    exact mem_map.mpr ⟨f, mem_filter.mpr ⟨mem_append_right _ hf, hinit f hf⟩, rfl⟩
-  · have hk2 := (mem_filter.mp hk).2
-    rw [initNames_eq R b rb hb] at hk2
-    have hk2' : ∃ a, (a ∈ rb.fields ∧ a.init = true) ∧ a.name = k := by simpa using hk2
-    obtain ⟨f, ⟨hfm, hfi⟩, rfl⟩ := hk2'
-    exact mem_map.mpr ⟨f, mem_filter.mpr ⟨mem_append_left _ hfm, hfi⟩, rfl⟩
+  · exact mem_append_right _ hk
+  · have hk1 := (mem_filter.mp hk).1
+    simp only [valOf, map_map] at hk1
+    obtain ⟨f, hf, rfl⟩ := mem_map.mp hk1
+    exact mem_append_left _ (mem_map.mpr ⟨f, hf, rfl⟩)
 
-/-- every init field of `D` is serialized and required -/
+/-- a subclass of `b` that has the required keys has every field of `D`, i.e. every serialized key -/
 theorem req_covers (R : List RCls) (b D : Nat) (rb rD : RCls) (ext : List Field) (x : Str → Int)
-    (h : Derived R b D rb rD ext) : ∀ k ∈ initNames R D, k ∈ reqOf R b rb ext x := by
+    (h : Derived R b D rb rD ext) (c : Nat) (hcb : ∀ k ∈ fieldNames R b, k ∈ fieldNames R c)
+    (hc : Covers (fieldNames R) c (reqOf R b rb ext x)) : fieldNames R D ⊆ fieldNames R c := by
   obtain ⟨hb, hD, hex, _, _, _⟩ := h
   intro k hk
-  rw [initNames_eq R D rD hD, hex] at hk
-  obtain ⟨f, hf, rfl⟩ := mem_map.mp hk
-  have hf' := mem_filter.mp hf
-  rcases mem_append.mp hf'.1 with hfb | hfe
-  · refine mem_append_right _ (mem_filter.mpr ⟨?_, ?_⟩)
-    · simp only [valOf, map_map]; exact mem_map.mpr ⟨f, hfb, rfl⟩
-    · rw [initNames_eq R b rb hb]
-      simpa using ⟨f, ⟨hfb, hf'.2⟩, rfl⟩
-  · exact mem_append_left _ (mem_map.mpr ⟨f, hfe, rfl⟩)
+  rw [fieldNames_eq R D rD hD, hex, map_append] at hk
+  rcases mem_append.mp hk with hk | hk
+  · exact hcb k (by rw [fieldNames_eq R b rb hb]; exact hk)
+  · exact hc k (mem_append_left _ hk)
 
 /-- the first call (through the base) of `b.from_dict(to_dict(d))`: the base's own fields are consumed, the extension's
     keys are left over, and the choice among `π b` decides -/
@@ -378,40 +381,41 @@ theorem enc_flat (R : List RCls) (D : Nat) (x : Str → Int) (F : List Field) :
   simp [encV, encKV_valOf]
 
 /-- **Superset clause, end to end.**  Without identification the load through `b` continues as a load through SOME strict
-    subclass `c` of the candidate set that has every required key — every init field of `D` — among its init fields. -/
+    subclass `c` of the candidate set that has every field of `D` — every serialized key, `init=False` ones included. -/
 theorem c14_superset_load (R : List RCls) (π : Nat → List Nat) (fuel : Nat) (b D : Nat) (rb rD : RCls)
     (ext : List Field) (x : Str → Int) (drop : Option Bool)
-    (h : Derived R b D rb rD ext) (hkeep : drop.getD (!rb.dis) = false) (hext : ext ≠ []) (hinit : AllInit ext)
-    (hDπ : D ∈ π b) (hDb : D ≠ b) :
-    ∃ c, c ∈ π b ∧ c ≠ b ∧ (∀ k ∈ initNames R D, k ∈ initNames R c) ∧
+    (h : Derived R b D rb rD ext) (hkeep : drop.getD (!rb.dis) = false) (hext : ext ≠ [])
+    (hsubcls : ExtendBase R (π b) b) (hDπ : D ∈ π b) (hDb : D ≠ b) :
+    ∃ c, c ∈ π b ∧ c ≠ b ∧ fieldNames R D ⊆ fieldNames R c ∧
       fromDict R π (fuel + 2) b (encV R false (.inst D (valOf x rD.fields))) drop
         = fromDict R π (fuel + 1) c (encV R false (.inst D (valOf x rD.fields))) (some false) := by
   have hDc : D ∈ (π b).filter (fun c => c ≠ b) := mem_filter.mpr ⟨hDπ, by simpa using hDb⟩
-  obtain ⟨c, hc⟩ := c14_superset_exists (initNames R) _ (reqOf R b rb ext x) D hDc (req_covered R b D rb rD ext x h hinit)
-  have ⟨hcm, hcc⟩ := c14_superset (initNames R) _ _ c hc
+  obtain ⟨c, hc⟩ := c14_superset_exists (fieldNames R) _ (reqOf R b rb ext x) D hDc (req_covered R b D rb rD ext x h)
+  have ⟨hcm, hcc⟩ := c14_superset (fieldNames R) _ _ c hc
   have hcm' := mem_filter.mp hcm
-  refine ⟨c, hcm'.1, by simpa using hcm'.2, fun k hk => hcc k (req_covers R b D rb rD ext x h k hk), ?_⟩
+  refine ⟨c, hcm'.1, by simpa using hcm'.2, req_covers R b D rb rD ext x h c (hsubcls c hcm'.1) hcc, ?_⟩
   rw [enc_flat, keep_step R π fuel b D rb rD ext x drop h hkeep hext, pickSubclass_eq, hc]
 
-/-- **Identified clause, end to end.**  `b.from_dict(to_dict(d), drop)` with subclass decoding in effect, `d` an
-    instance of a derived class `D` all of whose extra fields are init fields, returns `d` itself — class `D`, same
-    values — whenever no other subclass of `b` has `D`'s init-field set; for every iteration order `π b` of the
-    subclass set.  (`_partial`: the exclusion `AllInit` is the open finding `C14-noninit-field-blocks-recovery`.) -/
-theorem c14_identified_partial (R : List RCls) (π : Nat → List Nat) (fuel : Nat) (b D : Nat) (rb rD : RCls)
+/-- **Identified clause, end to end (full strength).**  `b.from_dict(to_dict(d), drop)` with subclass decoding in effect,
+    `d` an instance of a derived class `D` — its extra fields init fields or not — returns `d` itself (class `D`, same
+    values) whenever no other subclass of `b` has `D`'s field set; for every iteration order `π b` of the subclass set,
+    i.e. every definition order / process history, and any number of classes. -/
+theorem c14_identified (R : List RCls) (π : Nat → List Nat) (fuel : Nat) (b D : Nat) (rb rD : RCls)
     (ext : List Field) (x : Str → Int) (drop : Option Bool)
     (h : Derived R b D rb rD ext)
     (hkeep : drop.getD (!rb.dis) = false)
-    (hext : ext ≠ []) (hinit : AllInit ext)
-    (hDπ : D ∈ π b) (hDb : D ≠ b)
-    (huniq : Identifies (initNames R) ((π b).filter (fun c => c ≠ b)) D) :
+    (hext : ext ≠ [])
+    (hsubcls : ExtendBase R (π b) b) (hDπ : D ∈ π b) (hDb : D ≠ b)
+    (huniq : Identifies (fieldNames R) ((π b).filter (fun c => c ≠ b)) D) :
     fromDict R π (fuel + 2) b (encV R false (.inst D (valOf x rD.fields))) drop = .ok (.inst D (valOf x rD.fields)) := by
   have hDc : D ∈ (π b).filter (fun c => c ≠ b) := mem_filter.mpr ⟨hDπ, by simpa using hDb⟩
-  have hndI : (initNames R D).Nodup := by
-    rw [initNames_eq R D rD h.hD]
-    exact h.nodup.sublist ((filter_sublist (l := rD.fields)).map _)
+  have hndI : (fieldNames R D).Nodup := by
+    rw [fieldNames_eq R D rD h.hD]; exact h.nodup
+  have hfull : ∀ c ∈ (π b).filter (fun c => c ≠ b), Covers (fieldNames R) c (reqOf R b rb ext x) →
+      fieldNames R D ⊆ fieldNames R c := fun c hc hcov =>
+    req_covers R b D rb rD ext x h c (hsubcls c (mem_filter.mp hc).1) hcov
   rw [enc_flat, keep_step R π fuel b D rb rD ext x drop h hkeep hext, pickSubclass_eq,
-    c14_identified_pick (initNames R) _ _ D hDc hndI (req_covered R b D rb rD ext x h hinit)
-      (req_covers R b D rb rD ext x h) huniq]
+    c14_identified_pick (fieldNames R) _ _ D hDc hndI (req_covered R b D rb rD ext x h) hfull huniq]
   obtain ⟨hb, hD, hex, hprim, hnd, hnt⟩ := h
   have hty : lookupKey typeKey (rawOf x rD.fields) = none := lookup_rawOf_none x _ _ hnt
   have hkD : ∀ f ∈ rD.fields, lookupKey f.name (rawOf x rD.fields) = some (J.int (x f.name)) :=
@@ -427,18 +431,20 @@ theorem c14_identified_partial (R : List RCls) (π : Nat → List Nat) (fuel : N
     loaded instance in the identified case. -/
 theorem c14_order_free_load (R : List RCls) (π₁ π₂ : Nat → List Nat) (fuel : Nat) (b D : Nat) (rb rD : RCls)
     (ext : List Field) (x : Str → Int) (drop : Option Bool)
-    (h : Derived R b D rb rD ext) (hkeep : drop.getD (!rb.dis) = false) (hext : ext ≠ []) (hinit : AllInit ext)
-    (hperm : (π₁ b).Perm (π₂ b)) (hDπ : D ∈ π₁ b) (hDb : D ≠ b)
-    (huniq : Identifies (initNames R) ((π₁ b).filter (fun c => c ≠ b)) D) :
+    (h : Derived R b D rb rD ext) (hkeep : drop.getD (!rb.dis) = false) (hext : ext ≠ [])
+    (hperm : (π₁ b).Perm (π₂ b)) (hsubcls : ExtendBase R (π₁ b) b) (hDπ : D ∈ π₁ b) (hDb : D ≠ b)
+    (huniq : Identifies (fieldNames R) ((π₁ b).filter (fun c => c ≠ b)) D) :
     fromDict R π₁ (fuel + 2) b (encV R false (.inst D (valOf x rD.fields))) drop
       = fromDict R π₂ (fuel + 2) b (encV R false (.inst D (valOf x rD.fields))) drop := by
-  rw [c14_identified_partial R π₁ fuel b D rb rD ext x drop h hkeep hext hinit hDπ hDb huniq]
-  have huniq₂ : Identifies (initNames R) ((π₂ b).filter (fun c => c ≠ b)) D := fun c hc =>
+  rw [c14_identified R π₁ fuel b D rb rD ext x drop h hkeep hext hsubcls hDπ hDb huniq]
+  have huniq₂ : Identifies (fieldNames R) ((π₂ b).filter (fun c => c ≠ b)) D := fun c hc =>
     huniq c (mem_filter.mpr ⟨hperm.symm.subset (mem_filter.mp hc).1, (mem_filter.mp hc).2⟩)
-  rw [c14_identified_partial R π₂ fuel b D rb rD ext x drop h hkeep hext hinit (hperm.subset hDπ) hDb huniq₂]
+  have hsubcls₂ : ExtendBase R (π₂ b) b := fun c hc => hsubcls c (hperm.symm.subset hc)
+  rw [c14_identified R π₂ fuel b D rb rD ext x drop h hkeep hext hsubcls₂ (hperm.subset hDπ) hDb huniq₂]
 
 /-! #### the hierarchy used by the examples and witnesses
-    `B0(a)` ; `D1(B0)(x)` ; `D2(B0)(x, y)` ; `D3(B0)(n: init=False)` ; `Box(l: List[B0], f: B0, o: Optional[B0])` -/
+    `B0(a)` ; `D1(B0)(x)` ; `D2(B0)(x, y)` ; `D3(B0)(n: init=False)` ; `Box(l: List[B0], f: B0, o: Optional[B0])` ;
+    `D5(B0)(x, m: init=False)` (same INIT fields as `D1`, one more field) -/
 
 def fInt (n : String) (init : Bool := true) : Field := ⟨n.toList, init, .prim, some (.int 0)⟩
 
@@ -448,52 +454,54 @@ def exH (dis : Bool) : List Cls :=
     ⟨"D2".toList, some 0, none, [fInt "x", fInt "y"]⟩,
     ⟨"D3".toList, some 0, none, [fInt "n" false]⟩,
     ⟨"Box".toList, none, none, [⟨"l".toList, true, .list 0, some (.list [])⟩, ⟨"f".toList, true, .dc 0, some .none⟩,
-                                ⟨"o".toList, true, .opt 0, some .none⟩]⟩ ]
+                                ⟨"o".toList, true, .opt 0, some .none⟩]⟩,
+    ⟨"D5".toList, some 0, none, [fInt "x", fInt "m" false]⟩ ]
 
 def exR (dis : Bool) : List RCls := resolve (exH dis)
 
-/-- the hypotheses of `c14_identified_partial` are satisfiable: `D1` through `B0`, candidates in the order `[3, 2, 1]` -/
+/-- the hypotheses of `c14_identified` are satisfiable: `D1` through `B0`, candidates in the order `[5, 3, 2, 1]` -/
 example : Derived (exR true) 0 1 ((exR true).getD 0 default) ((exR true).getD 1 default) [fInt "x"] :=
   ⟨rfl, rfl, rfl, by decide, by decide, by decide⟩
-example : Identifies (initNames (exR true)) ([3, 2, 1].filter (fun c => c ≠ 0)) 1 := by
+example : ExtendBase (exR true) [5, 3, 2, 1] 0 := by
+  intro c hc k hk
+  have hc' : c = 5 ∨ c = 3 ∨ c = 2 ∨ c = 1 := by simpa using hc
+  have hk' : k = "a".toList := by
+    have : fieldNames (exR true) 0 = ["a".toList] := rfl
+    rw [this] at hk; simpa using hk
+  subst hk'
+  rcases hc' with rfl | rfl | rfl | rfl <;> decide
+example : Identifies (fieldNames (exR true)) ([5, 3, 2, 1].filter (fun c => c ≠ 0)) 1 := by
   intro c hc h
-  have hc' : c = 3 ∨ c = 2 ∨ c = 1 := by simpa using hc
-  rcases hc' with rfl | rfl | rfl
+  have hc' : c = 5 ∨ c = 3 ∨ c = 2 ∨ c = 1 := by simpa using hc
+  rcases hc' with rfl | rfl | rfl | rfl
+  · have := (h "m".toList).mp (by decide); revert this; decide
   · have := (h "x".toList).mpr (by decide); revert this; decide
   · have := (h "y".toList).mp (by decide); revert this; decide
   · rfl
-example : fromDict (exR true) (fun _ => [3, 2, 1]) 2 0
+example : fromDict (exR true) (fun _ => [5, 3, 2, 1]) 2 0
     (encV (exR true) false (.inst 1 [("a".toList, .int 5), ("x".toList, .int 6)])) none
     = .ok (.inst 1 [("a".toList, .int 5), ("x".toList, .int 6)]) := by rfl
 
-/-! ### (E1) open finding `C14-noninit-field-blocks-recovery` -/
+/-! ### (E1) regression examples for the repaired finding `C14-noninit-field-blocks-recovery` (fixed in /repo 9c31ab9 + the
+    sort-key follow-up): the superset test looks at ALL fields of a candidate and the sort key is the number of fields -/
 
-/-- the identified clause at full strength (no `AllInit` exclusion) -/
-def IdentifiedFull : Prop :=
-  ∀ (R : List RCls) (π : Nat → List Nat) (fuel : Nat) (b D : Nat) (rb rD : RCls) (ext : List Field) (x : Str → Int)
-    (drop : Option Bool), Derived R b D rb rD ext → drop.getD (!rb.dis) = false → ext ≠ [] → D ∈ π b → D ≠ b →
-    Identifies (initNames R) ((π b).filter (fun c => c ≠ b)) D →
-    fromDict R π (fuel + 2) b (encV R false (.inst D (valOf x rD.fields))) drop = .ok (.inst D (valOf x rD.fields))
+/-- `D3` adds only the init=False field `n`: its dict `{a, n}` loaded through `B0` now comes back as `D3` (before the
+    repair no candidate had `n` among its INIT fields and `B0(a=…, n=…)` raised `RuntimeError`) -/
+example : fromDict (exR true) (fun _ => [1, 2, 3, 5]) 2 0
+    (encV (exR true) false (.inst 3 [("a".toList, .int 7), ("n".toList, .int 8)])) none
+    = .ok (.inst 3 [("a".toList, .int 7), ("n".toList, .int 8)]) := by rfl
 
-/-- `D3` adds only the init=False field `n`; its dict `{a, n}` loaded through `B0` finds no candidate whose INIT fields
-    contain `n`, and `B0(a=…, n=…)` raises -/
-theorem c14_noninit_witness : ¬ IdentifiedFull := by
-  intro hfull
-  have hD : Derived (exR true) 0 3 ((exR true).getD 0 default) ((exR true).getD 3 default) [fInt "n" false] :=
-    ⟨rfl, rfl, rfl, by decide, by decide, by decide⟩
-  have hI : Identifies (initNames (exR true)) ([1, 2, 3].filter (fun c => c ≠ 0)) 3 := by
-    intro c hc h
-    have hc' : c = 1 ∨ c = 2 ∨ c = 3 := by simpa using hc
-    rcases hc' with rfl | rfl | rfl
-    · have := (h "x".toList).mp (by decide); revert this; decide
-    · have := (h "x".toList).mp (by decide); revert this; decide
-    · rfl
-  have := hfull (exR true) (fun _ => [1, 2, 3]) 0 0 3 _ _ _ (fun _ => 7) none hD rfl (by simp) (by simp) (by simp) hI
-  have e : fromDict (exR true) (fun _ => [1, 2, 3]) (0 + 2) 0
-      (encV (exR true) false (.inst 3 (valOf (fun _ => 7) ((exR true).getD 3 default).fields))) none
-      = .raise "RuntimeError".toList := by rfl
-  rw [e] at this
-  cases this
+/-- `D1(a, x)` and `D5(a, x, m: init=False)` have the same number of INIT fields; with the candidates sorted by their number
+    of fields `D1`'s dict comes back as `D1` even when the set order lists `D5` first (with the old sort key the tie was
+    broken by the set order and `D5` came back) -/
+example : fromDict (exR true) (fun _ => [5, 1, 2, 3]) 2 0
+    (encV (exR true) false (.inst 1 [("a".toList, .int 5), ("x".toList, .int 6)])) none
+    = .ok (.inst 1 [("a".toList, .int 5), ("x".toList, .int 6)]) := by rfl
+
+/-- … and `D5`'s own dict `{a, x, m}` comes back as `D5` -/
+example : fromDict (exR true) (fun _ => [1, 5, 2, 3]) 2 0
+    (encV (exR true) false (.inst 5 [("a".toList, .int 5), ("x".toList, .int 6), ("m".toList, .int 9)])) none
+    = .ok (.inst 5 [("a".toList, .int 5), ("x".toList, .int 6), ("m".toList, .int 9)]) := by rfl
 
 /-! ### (D) `save_dc_types` -/
 
